@@ -11,6 +11,7 @@
    with real git on generated histories. *)
 From Coq Require Import List NArith Bool Permutation.
 From Conductor Require Import Lib.Str Model.Select Proofs.SelectSpec Proofs.SelectProofs Proofs.SelectDag.
+From Conductor Require Import Gen.Generated Proofs.GenTieSelect.
 Import ListNotations.
 Open Scope N_scope.
 
@@ -151,6 +152,19 @@ Theorem C05_dag_this_commit_idempotent : forall d, wf_dag d [] -> forall h vs w,
   executes (dag_is_ancestor d) (dag_distance d) false (Some h) (Head h) vs = false.
 Proof. exact dag_this_commit_idempotent. Qed.
 Print Assumptions C05_dag_this_commit_idempotent.
+
+(* Tie to the source, re-checked on every run: the model's should_run is the decision list TRANSLATED
+   from RunExperiment.should_run in the working tree (Gen/Generated.v gen_should_run), for every git
+   oracle, every --at-least argument and every selected version *)
+Theorem C05_should_run_is_the_sources :
+  forall (is_ancestor : cid -> cid -> bool) (al : option cid) (sel : option version),
+  should_run is_ancestor al sel =
+  gen_should_run (is_none sel) (is_none al)
+                 (match sel with Some v => is_none (commit v) | None => false end)
+                 (match sel, al with Some v, Some c => match commit v with Some vc => N.eqb vc c | None => false end | _, _ => false end)
+                 (match sel, al with Some v, Some c => match commit v with Some vc => is_ancestor c vc | None => false end | _, _ => false end).
+Proof. exact should_run_tie. Qed.
+Print Assumptions C05_should_run_is_the_sources.
 
 (* non-vacuity: a history with a merge (1 <- 2, 1 <- 3, {2,3} <- 4 = HEAD, 1 <- 5 off the
    ancestry); versions at 2 and 3 are equally far from HEAD (distance 2 each), the newer one
